@@ -13,6 +13,8 @@ def run_engine(name, prop, tier, seed, build, run_workers, log, ctx):
         return proto_check(prop, ctx, log)
     if name == "miri":
         return miri(prop, tier, seed, ctx, log)
+    if name == "tsan":
+        return tsan(prop, tier, seed, ctx, log, build, run_workers)
     raise SystemExit("unknown engine " + name)
 
 
@@ -114,4 +116,21 @@ def miri(prop, tier, seed, ctx, log):
     out["coverage"] = {"miri_shards": nshards, "miri_evaluations": evals, "wall_s": round(time.time() - t0, 1),
                        "flags": env["MIRIFLAGS"]}
     log("miri: %d evaluations in %.1fs" % (evals, time.time() - t0))
+    return out
+
+
+def tsan(prop, tier, seed, ctx, log, build, run_workers):
+    """A reduced workload of the check under ThreadSanitizer (std rebuilt with -Zbuild-std)."""
+    out = {"results": [], "aborts": [], "inconclusive": [], "coverage": {}}
+    t0 = time.time()
+    binp = build("tsan")
+    if binp is None:
+        out["inconclusive"].append("tsan build failed")
+        return out
+    spec = {"shards": {"tsan": ctx.get("tsan_shards", 4)}, "scale": {"tsan": {tier: ctx.get("tsan_scale", 1.0)}},
+            "time_cap": {tier: ctx.get("tsan_time_cap", 600)}}
+    res, ab, inc = run_workers(prop, "tsan", binp, tier, seed, spec, tier_override="tsan")
+    out["results"], out["aborts"], out["inconclusive"] = res, ab, inc
+    out["coverage"] = {"tsan_evaluations": sum(r["evaluations"] for r in res), "wall_s": round(time.time() - t0, 1)}
+    log("tsan: %d evaluations in %.1fs" % (out["coverage"]["tsan_evaluations"], time.time() - t0))
     return out
